@@ -1,9 +1,9 @@
-\* all combinations: authentication latency (late first tick), 4 ack offsets x 3 info delays x 4^3 stage latencies x 7 echo policies
+\* all combinations: authentication latency (late first tick), 5 ack offsets x 4 info delays x 4^3 stage latencies x 7 echo policies
 CONSTANTS
   P = 16
-  AuthLats = {0, 18}
-  AckDelays = {1, 3, 13, 21}
-  InfoDelays = {0, 4, 24}
+  AuthLats = {0, 18, 34}
+  AckDelays = {1, 3, 13, 17, 21}
+  InfoDelays = {0, 4, 16, 24}
   Lats <- MC_LatsFull
   Policies = {"prompt", "slow", "late", "never", "wrong", "dup", "unsolicited"}
 SPECIFICATION Spec
